@@ -23,7 +23,13 @@ let spec_tags cfg tag path =
 (* ---- gun-level cases (harness/cmd/hC10/guns.go) ---- *)
 
 let s_sample (s : sample) = Printf.sprintf "%s:%s:%s" (hex_of_bytes s.sm_tags) (string_of_n s.sm_proto) (string_of_n s.sm_net)
-let s_samples (l : sample list) = String.concat " " (Printf.sprintf "n=%d" (List.length l) :: List.map s_sample l)
+(* samples as they are at the moment of Report, then the number of samples written to afterwards *)
+let s_samples_late (l : sample list) (late : int) =
+  String.concat " " ((Printf.sprintf "n=%d" (List.length l) :: List.map s_sample l) @ [Printf.sprintf "late=%d" late])
+(* specification side: the samples, none of them touched after its hand-over *)
+let s_samples (l : sample list) = s_samples_late l 0
+(* code-shaped side: the trace of operations of the shot (Model/ShootEvents.v) *)
+let s_trace (tr : sev list) = s_samples_late (at_report tr) (int_of_nat (late_writes tr))
 
 let cut (sep : char) (s : string) : string * string =
   match String.index_opt s sep with
@@ -59,19 +65,20 @@ let predict_http gun fault status en depth nto tag path obs =
   let h = (match fault with "hookok" -> HOk | "hookfail0" | "hookfail1" -> HFail | _ -> HNone) in
   let invalid = (fault = "invalid") in
   let id = n_of_int 7 in
-  let own = base_shoot cfg h invalid id tagb pathb x in
+  let tr = base_shoot_ev cfg h invalid id tagb pathb x in
+  let own = at_report tr in
   let s_one (s : sample) = Printf.sprintf "%s %s %s %s" (hex_of_bytes s.sm_tags) (string_of_n s.sm_proto) (string_of_n s.sm_net) (string_of_n s.sm_id) in
   let reqs = (match fault with "refuse" | "badconnect" | "connreset" | "invalid" | "hookfail0" | "hookfail1" -> 0 | _ -> 1) in
-  let line own_l hook_n =
-    Printf.sprintf "own=%d hook=%d %s shape=%s reqs=%d" (List.length own_l) hook_n
-      (match own_l with [s] -> s_one s | [] -> "-" | _ -> "many") shape_field reqs in
-  let pred = line own (if fault = "hookfail1" then 1 else 0) in
+  let line own_l hook_n late =
+    Printf.sprintf "own=%d hook=%d %s late=%d shape=%s reqs=%d" (List.length own_l) hook_n
+      (match own_l with [s] -> s_one s | [] -> "-" | _ -> "many") late shape_field reqs in
+  let pred = line own (if fault = "hookfail1" then 1 else 0) (int_of_nat (late_writes tr)) in
   let v =
     if h = HFail then
       (* the hook failed: Shoot reports nothing itself; the hook's contract is to report *)
       verdict (starts "own=0 " obs) "Shoot reported a sample although the Connect hook failed"
     else begin
-      let want = line [base_spec cfg invalid id tagb pathb x] 0 in
+      let want = line [base_spec cfg invalid id tagb pathb x] 0 0 in
       if obs <> want then "BAD:expected " ^ want
       else if fails then
         (match err, os_errno fault with
@@ -115,18 +122,18 @@ let predict (c : string) (obs : string) : string * string * bool =
        | "http" | "http2" | "connect" ->
            let x = XResp (n_of_int 200, BodyOk) in
            let want = s_samples [base_spec cfg false (n_of_int 7) tagb pathb x] in
-           (s_samples (base_shoot cfg HNone false (n_of_int 7) tagb pathb x), verdict (obs = want) ("expected " ^ want), true)
+           (s_trace (base_shoot_ev cfg HNone false (n_of_int 7) tagb pathb x), verdict (obs = want) ("expected " ^ want), true)
        | "http/scenario" | "http2/scenario" ->
            let st = [(str "first", HStepOk (n_of_int 200)); (str "second", HStepOk (n_of_int 404))] in
            let want = s_samples (hscen_spec tagb st) in
-           (s_samples (hscen_shoot tagb st), verdict (obs = want) ("expected " ^ want), true)
+           (s_trace (hscen_ev tagb st), verdict (obs = want) ("expected " ^ want), true)
        | "grpc" ->
            let want = s_samples [{ sm_tags = tagb; sm_proto = doc_code (n_of_int 0); sm_net = n_of_int 0; sm_id = n_of_int 0 }] in
-           (s_samples (grpc_shoot tagb (GCalled (n_of_int 0))), verdict (obs = want) ("expected " ^ want), true)
+           (s_trace (grpc_ev tagb (GCalled (n_of_int 0))), verdict (obs = want) ("expected " ^ want), true)
        | "grpc/scenario" ->
            let st = [(str "call0", GSCalled (n_of_int 0, false)); (str "call1", GSCalled (n_of_int 5, false))] in
            let want = s_samples (gscen_spec tagb st) in
-           (s_samples (gscen_shoot tagb st), verdict (obs = want) ("expected " ^ want), true)
+           (s_trace (gscen_ev tagb st), verdict (obs = want) ("expected " ^ want), true)
        | _ -> ("unknown-case", "BAD:unknown-case", false))
   | ["gjson"; phases] ->
       (* every sample carries the tag of ITS ammo line ("" when the line has no tag key) *)
@@ -164,11 +171,11 @@ let predict (c : string) (obs : string) : string * string * bool =
   | ["hscen"; name; steps] ->
       let st = steps_of hstep_of steps and nm = bytes_of_hex name in
       let want = s_samples (hscen_spec nm st) in
-      (s_samples (hscen_shoot nm st), verdict (obs = want) ("expected " ^ want), List.length st > 1)
+      (s_trace (hscen_ev nm st), verdict (obs = want) ("expected " ^ want), List.length st > 1)
   | ["gscen"; name; steps] ->
       let st = steps_of gstep_of steps and nm = bytes_of_hex name in
       let want = s_samples (gscen_spec nm st) in
-      (s_samples (gscen_shoot nm st), verdict (obs = want) ("expected " ^ want), List.length st > 1)
+      (s_trace (gscen_ev nm st), verdict (obs = want) ("expected " ^ want), List.length st > 1)
   | ["gshoot"; tag; kind] ->
       let call = (if kind = "unknown" then GUnknown else if kind = "badpayload" then GBadPayload
                   else GCalled (n_of_string (after_prefix "st" kind))) in
@@ -176,7 +183,7 @@ let predict (c : string) (obs : string) : string * string * bool =
       (* specification: one sample, the ammo's tag, the documented code of the call status *)
       let code = (match call with GUnknown -> n_of_int 0 | GBadPayload -> n_of_int 400 | GCalled s -> doc_code s) in
       let want = s_samples [{ sm_tags = tg; sm_proto = code; sm_net = n_of_int 0; sm_id = n_of_int 0 }] in
-      (s_samples (grpc_shoot tg call), verdict (obs = want) ("expected " ^ want), true)
+      (s_trace (grpc_ev tg call), verdict (obs = want) ("expected " ^ want), true)
   | ["grpc"; code] ->
       let c = n_of_string code in
       let a = string_of_n (grpc_code c) and d = string_of_n (doc_code c) in
@@ -185,9 +192,9 @@ let predict (c : string) (obs : string) : string * string * bool =
       let cfg = { at_enabled = bool_of_field en; at_depth = nat_of_int (int_of_string depth); at_notagonly = bool_of_field nto } in
       let tagb = bytes_of_hex tag and pathb = bytes_of_hex path in
       let tags = shoot_tags cfg tagb pathb in
-      let want = hex_of_bytes (spec_tags cfg tagb pathb) ^ " 204 7" in
+      let want = hex_of_bytes (spec_tags cfg tagb pathb) ^ " 204 7 late=0" in
       (* one sample, carrying the received status (204 from the scripted client) and the ammo id *)
-      (hex_of_bytes tags ^ " 204 7", verdict (obs = want) ("expected " ^ want), cfg.at_enabled && List.length pathb > 1)
+      (hex_of_bytes tags ^ " 204 7 late=0", verdict (obs = want) ("expected " ^ want), cfg.at_enabled && List.length pathb > 1)
   | ["errno"; t; shape] ->
       let e = shape_of_tokens (String.split_on_char '.' shape) in
       let p = string_of_n (get_errno (bool_of_field t) e) in
